@@ -15,9 +15,10 @@ def lagrange_found_flag(ctx):
         return False
     v = FnView.get(ctx.prog, f)
     item = next_item(lambda t: mentions(t, arg(1)))
-    eq_true = {e for (e, fact) in v.facts if fact[0] == "cond" and fact[1] == "eq" and fact[4]
-               and ((mentions(fact[2], arg(3)) and mentions(fact[3], item)) or
-                    (mentions(fact[3], arg(3)) and mentions(fact[2], item)))}
+    xi = lambda t: strip_newtype_fields(t) == ("arg", 3) or (t[0] == "field" and strip_newtype_fields(t[1]) == ("arg", 3) and t[3] == "0")
+    xj = lambda t: item(strip_newtype_fields(t)) or (t[0] == "field" and item(strip_newtype_fields(t[1])) and t[3] == "0")
+    eq_true = {e for (e, fact) in v.facts if fact[0] == "cond" and fact[1] == "eq" and fact[4] and fact[3] is not None
+               and ((xi(fact[2]) and xj(fact[3])) or (xi(fact[3]) and xj(fact[2])))}
     if not eq_true:
         return False
     for (e, fact) in v.facts:
